@@ -479,10 +479,11 @@ where
             let rank_b = rank_path_off[level];
             let bit = ((repr >> (symbol_len - level - 1)) & 1) == 1;
 
+            let k = rank_b.checked_add(result)?;
             result = if bit {
-                self.bvs[level].select1(rank_b + result)
+                self.bvs[level].select1(k)
             } else {
-                self.bvs[level].select0(rank_b + result)
+                self.bvs[level].select0(k)
             }? - b;
         }
 
